@@ -289,4 +289,32 @@ theorem old_formula_fails (fs fts : ℝ) (hfs : 0 < fs) :
     not_false_eq_true, if_true, hz, h7, h2, bind, Except.bind, pure, Except.pure]
   simp [← hz1, ← hz2, ← hz3, hr, memmap]
 
+/-- The seeded variant of the `.cbin` branch (`ftsec = n_samples / sample_rate` of the `.ch` header): a one-sample
+stream compressed at 2500 Hz under meta data at 30000 Hz that announce another length comes out with `ns = 12`
+under every rounding function of the standard model. -/
+theorem chRate_variant_wrong (fts : ℝ) (hne : (F.rnd (F.fl (fts * 30000))).toNat ≠ 1) :
+    ∃ h', openCbinChRate (realArith F) (.ofMeta 1 30000 (some fts)) ⟨1, 1, 2500⟩ = .ok h' ∧
+      h'.nsOffline (realArith F) = .ok 12 := by
+  have h1 : F.fl (1 : ℝ) = 1 := by
+    have := fl_nat F 1 (by norm_num)
+    simpa using this
+  have hus := u_small
+  have hu := u_pos
+  obtain ⟨a1, a2⟩ := fl_between F ((1 : ℝ) / 2500) (1 / 2500) (1 / 2500) (by norm_num) le_rfl le_rfl
+  set a := F.fl ((1 : ℝ) / 2500) with ha
+  obtain ⟨b1, b2⟩ := fl_between F (a * 30000) (1 / 2500 * (1 - u) * 30000) (1 / 2500 * (1 + u) * 30000)
+    (by have : 0 ≤ 1 - u := by linarith
+        positivity) (by linarith) (by linarith)
+  have hr : F.rnd (F.fl (a * 30000)) = 12 := by
+    apply rnd_eq F _ 12
+    rw [abs_lt]
+    have huu : u * u ≤ 1 / 1000 * (1 / 1000) := mul_le_mul hus hus hu.le (by norm_num)
+    have huu0 : 0 ≤ u * u := by positivity
+    constructor <;> push_cast <;> nlinarith
+  have hc : ¬ ((1 : ℕ) = (F.rnd (F.fl (fts * 30000))).toNat) := fun h => hne h.symm
+  refine ⟨.ofMeta 1 30000 (some a), ?_, ?_⟩
+  · simp [openCbinChRate, Hdr.nsOffline, Hdr.nc, Hdr.setFileTimeSecs, realArith, bind, Except.bind]
+    rw [if_neg hc, h1]
+  · simp [Hdr.nsOffline, realArith, hr]
+
 end IblVerif.OpenSize
